@@ -1659,3 +1659,46 @@ package resolve
 //@ func Resolver.ResolveGraphQLDeferResponse$2
 //@   ensures {terminates.the.stream.once} count(streamCompleted) == old(count(streamCompleted)) + 1
 //@   modifies global(ext), count(streamCompleted)
+
+// C13: identity of a trigger = digest of (what the source hashes of the input) ++ le64(headers hash): the
+// source is handed the whole input and the request's digest, the headers hash of this subgraph is appended when
+// there is one, and the id is the digest after exactly these writes.
+//@ func SubscriptionDataSource.HashTriggerInput
+//@   modifies global(ext)
+//@   emits inputHashed
+//@   trusted interface method implemented by the data sources (graphql_datasource.SubscriptionSource.HashTriggerInput is under contract)
+//@ func Resolver.prepareTrigger
+//@   requires ctx != nil
+//@   ghost var g_kg *xxhash.Digest = nil
+//@   ghost var g_hashedInput bool = false
+//@   ghost var g_hh int = 0
+//@   ghost var g_hhWritten bool = false
+//@   ghost var g_buf int = 0
+//@   ghost var g_put int = 0
+//@   ghost var g_id int = 0
+//@   ghost var g_extraWrites int = 0
+//@   at call SubscriptionDataSource.HashTriggerInput: assert {the.source.hashes.this.input.into.the.trigger.digest} arg1 == input && !g_hashedInput
+//@   at call SubscriptionDataSource.HashTriggerInput: ghost g_kg = arg2
+//@   at call SubscriptionDataSource.HashTriggerInput: ghost g_hashedInput = true
+//@   at call SubgraphHeadersBuilder.HeadersForSubgraph: assert {headers.of.this.subgraph} arg1 == sourceName
+//@   at call SubgraphHeadersBuilder.HeadersForSubgraph: ghost g_hh = result1
+//@   at call PutUint64: ghost g_buf = arr(arg1)
+//@   at call PutUint64: ghost g_put = arg2
+//@   at call Digest.Write: assert {only.the.headers.hash.is.appended} arg0 == g_kg && g_hashedInput && arr(arg1) == g_buf && len(arg1) == 8 && g_put == g_hh && !g_hhWritten
+//@   at call Digest.Write: ghost g_hhWritten = true
+//@   at call Digest.Sum64: assert {id.is.the.digest.of.input.and.headers} arg0 == g_kg && g_hashedInput && (g_hh != 0 ==> g_hhWritten)
+//@   at call Digest.Sum64: ghost g_id = result
+//@   ensures {trigger.id.is.that.digest} result2 == nil ==> result1 == g_id && g_hashedInput
+//@   modifies *, count(inputHashed), count(putUint64)
+
+// C13: the shutdown check and the registration of a subscription are one critical section of the registry lock
+// (a subscribe call that races with shutdown either is rejected or is seen - and torn down - by shutdown)
+//@ decl guarded Resolver.shutdown by mu
+//@ func Resolver.addSubscription
+//@   requires r != nil && !held(r.mu) && add != nil && add.ctx != nil
+//@   at call Resolver.registerSubscriptionLocked: assert {registered.only.after.seeing.no.shutdown.in.the.same.critical.section} held(r.mu) && !r.shutdown
+//@   at call Reporter.SubscriptionCountInc: assert {count.moves.under.registry.lock} held(r.mu)
+//@   ensures !held(r.mu)
+//@   modifies *, count(*)
+//@   safety lockbalance-off
+//@   safety no-nilmap
